@@ -204,6 +204,8 @@ double GammaQint(double x, double a)
 		// Integrate
 		gammaP = Integrate(integrand, tMin, x, eps);
 	}
+	// The quadrature error can push the result slightly outside the range of a probability.
+	gammaP = std::min(1.0, std::max(0.0, gammaP));
 
 	return 1.0 - gammaP;
 }
